@@ -160,7 +160,7 @@ func main() {
 			k.Nontrivial("directed:" + d.Name)
 			report(k, d.Name, d.Plan, out)
 		})
-		c.Cases("chain", c.N(2400, 60000), func(k *mon.Case) {
+		c.Cases("chain", c.N(4800, 70000), func(k *mon.Case) {
 			p, mode := genPlan(rand.New(rand.NewSource(k.R.Int63())), c.N(8, 12))
 			out := runPlan(p)
 			k.Count("cases_mode_"+mode, 1)
